@@ -388,7 +388,13 @@ def compare(d0, d1, what):
                 key = "parameter"
                 if v is None and all(o["params"].get(pn) is None for o in d0.values() if o["type"] == a["type"]):
                     key = "all-none-column"     # every object of the class holds None: the column is not written at all
-                if (isinstance(v, tuple) and isinstance(w, tuple) and len(v) == 3 and len(w) == 3 and v[0] == "i" and w[0] == "f"
+                if (isinstance(v, tuple) and isinstance(w, tuple) and len(v) == 3 and len(w) == 3 and {v[0], w[0]} == {"i", "f"}
+                        and {"i", "f"} <= {o["params"][pn][0] for o in d0.values() if o["type"] == a["type"]
+                                           and isinstance(o["params"].get(pn), tuple) and len(o["params"][pn]) == 3}):
+                    # the class column mixes ints and floats (C05 F6c): numpy promotes it to float, or - when a None is present -
+                    # the first value's type is forced on all
+                    key = "int-reads-back-as-float"
+                elif (isinstance(v, tuple) and isinstance(w, tuple) and len(v) == 3 and len(w) == 3 and v[0] == "i" and w[0] == "f"
                         and v[1] == w[1] and all(str(fcode(float(x))) == str(y) for x, y in zip(v[2], w[2]))):
                     key = "int-reads-back-as-float"
                 diffs.append((key, f"{what}: same value of every assigned persistent parameter",
@@ -548,12 +554,27 @@ def mutate(rng, o, r, nobj, ops):
     for i, c in comps:
         bymat.setdefault(type(c.material).__name__, []).append((i, c))
     mgroups = [g for g in bymat.values() if len(g) >= 2]
-    for g in rng.sample(mgroups, min(2, len(mgroups))):
-        for (i, c), td in zip(rng.sample(g, min(2, len(g))), rng.sample([0.5, 0.625, 0.75, 0.875, 0.90625, 0.96875], 2)):
+    def fresh_td(c):
+        try:
+            return float(type(c.material)().getTD())
+        except Exception:  # noqa: BLE001
+            return 1.0
+
+    special = [g for g in bymat.values() if fresh_td(g[0][1]) != 1.0]      # e.g. B4C: a fresh instance reports 0.9
+    chosen = rng.sample(mgroups, min(2, len(mgroups))) + special
+    for g in chosen:
+        dflt = fresh_td(g[0][1])
+        # "special" constants first: exactly 1.0 and the material's own default (the loader must apply the stored
+        # fraction always, not only when it differs from 1.0 / from what a fresh material reports), then other values
+        tds = [1.0, dflt] if (g in special or rng.random() < 0.4) else []
+        tds += rng.sample([0.5, 0.625, 0.75, 0.875, 0.90625, 0.96875], 2)
+        if rng.random() < 0.05:
+            tds[-1] = 0.0
+        for (i, c), td in zip(rng.sample(g, min(len(tds), len(g))), tds):
             try:
                 c.material.adjustTD(td)
                 c.p.theoreticalDensityFrac = td
-                ops.append(["setTD", i, td])
+                ops.append(["setTD", i, td, type(c.material).__name__])
             except Exception:  # noqa: BLE001
                 continue
     # LINK TARGETS whose TYPE differs from their NAME: dimension links are stored by sibling name
@@ -661,6 +682,8 @@ def record_edit_states(ctx, fixture, r, new_ops):
                 form += "-noncontiguous"
         elif kind == "setNumberDensities":
             form = op[3]
+        elif kind == "setTD":
+            form = ("exactly-1.0" if op[2] == 1.0 else "zero" if op[2] == 0.0 else "fraction") + (" " + op[3] if len(op) > 3 else "")
         ctx.case((fixture, kind, form, cls), nontrivial=True)
         ctx.count(f"edit kind: {kind}{' ' + form if form else ''}")
 
@@ -1165,6 +1188,32 @@ def excluded_points(ctx, req, impl, cases):
             if done:
                 break
     ctx.count("excluded point: no-default parameter assigned on one object of its class")
+    # theoretical-density fractions equal to "special" constants on a material whose own default is not 1.0 (B4C: 0.9):
+    # exactly 1.0, the default itself, another value; and 1.0 / 0.9 on a unit-default material. Checked incl. save-of-load.
+    with silence(), contextlib.suppress(LoadFailed, WriteRejected):
+        o, r = load_fixture("axialExpansion")
+        objs = all_objects(r)
+        comps = [(i, c) for i, c in enumerate(objs) if isinstance(c, Component)]
+        ops = []
+        for want_special in (True, False):
+            pick = []
+            for i, c in comps:
+                try:
+                    d = float(type(c.material)().getTD())
+                except Exception:  # noqa: BLE001
+                    continue
+                if (d != 1.0) == want_special and c.containsSolidMaterial():
+                    pick.append((i, c, d))
+                if len(pick) == 3:
+                    break
+            for (i, c, d), td in zip(pick, [1.0, 0.75, d] if want_special else [0.90625, 1.0, 0.5]):
+                c.material.adjustTD(td)
+                c.p.theoreticalDensityFrac = td
+                ops.append(["setTD", i, td, type(c.material).__name__])
+        record_edit_states(ctx, "axialExpansion", r, ops)
+        refresh_derived(r)
+        roundtrip_checks(ctx, "axialExpansion", o, r, ops, "td-special", deep=True)
+        ctx.count("excluded point: theoretical-density fractions 1.0 / own default on a non-unit-default material", len(ops))
     # a parameter with a numeric default explicitly assigned None: on one object among numeric siblings (must read back
     # None), then on EVERY object of the class (the all-None column is not written: what comes back is recorded)
     from armi.reactor.blocks import Block as _Block
